@@ -255,7 +255,9 @@ def run_with_agent(name, triggers, journal=None, push_fail_at=None, push_exc=Non
     inject(lo)
     forget_dummy_threads()
     j = journal or rig.Journal()
-    plugins = [rig.RecLogger(j), rig.RecSpanProcessor(j), rig.RecMetric(j), rig.RecDecorator(j)]
+    from deep.api.plugin.python import PythonPlugin
+    # the recording plugins, and the one every installation has: it names the thread of each snapshot
+    plugins = [rig.RecLogger(j), rig.RecSpanProcessor(j), rig.RecMetric(j), rig.RecDecorator(j), PythonPlugin(config=None)]
     agent = rig.Agent(plugins=plugins, journal=j)
     npush = {'n': 0}
     real_push = agent.push.push_snapshot
